@@ -6,6 +6,7 @@ import Minicbor.Encoder
 import Minicbor.Decoder
 import Minicbor.Skip
 import Minicbor.Wire
+import Minicbor.IntConv
 
 namespace Minicbor.Drv
 
@@ -103,37 +104,120 @@ def encSpec (w : List String) : String :=
 
 def intShow (x : Int) : String := toString x
 
+/-- map the value of a result to its printed form. -/
+def Res.mapStr (f : α → String) : Res α → Res String
+  | .ok a r => .ok (f a) r
+  | .err e r => .err e r
+  | .panic => .panic
+
+/-- one accessor call on the remaining input; the value is already printed. -/
+def runAcc (acc : String) (input : Bytes) : Option (Res String) :=
+  let i (t : Dec.IntTy) := some (Res.mapStr intShow (Dec.intAcc t input))
+  match acc with
+  | "bool" => some (Res.mapStr (fun b => if b then "1" else "0") (Dec.bool input))
+  | "u8" => i .u8 | "u16" => i .u16 | "u32" => i .u32 | "u64" => i .u64
+  | "i8" => i .i8 | "i16" => i .i16 | "i32" => i .i32 | "i64" => i .i64 | "int" => i .int
+  | "f16" => some (Res.mapStr (padHex 8) (Dec.f16 input))
+  | "f32" => some (Res.mapStr (padHex 8) (Dec.f32 true input))
+  | "f64" => some (Res.mapStr (padHex 16) (Dec.f64 true input))
+  | "f32_nohalf" => some (Res.mapStr (padHex 8) (Dec.f32 false input))
+  | "f64_nohalf" => some (Res.mapStr (padHex 16) (Dec.f64 false input))
+  | "char" => some (Res.mapStr toString (Dec.char input))
+  | "bytes" => some (Res.mapStr hexOrDash (Dec.bytes input))
+  | "str" => some (Res.mapStr hexOrDash (Dec.str input))
+  | "bytes_iter" => some (Res.mapStr showChunks (Dec.bytesIter input))
+  | "str_iter" => some (Res.mapStr showChunks (Dec.strIter input))
+  | "array" => some (Res.mapStr showOpt (Dec.array input))
+  | "map" => some (Res.mapStr showOpt (Dec.map input))
+  | "tag" => some (Res.mapStr toString (Dec.tag input))
+  | "null" => some (Res.mapStr (fun _ => "()") (Dec.null input))
+  | "undefined" => some (Res.mapStr (fun _ => "()") (Dec.undefined input))
+  | "simple" => some (Res.mapStr toString (Dec.simple input))
+  | "datatype" => some (Res.mapStr CType.name (Dec.datatype input))
+  | "skip" => some (Res.mapStr (fun _ => "()") (Dec.skip true input))
+  | "skip_noalloc" => some (Res.mapStr (fun _ => "()") (Dec.skip false input))
+  | _ => none
+
 def decOp (w : List String) : String :=
   match w with
   | [acc, h] =>
     match bytesOfHex h with
     | none => "bad-op"
     | some input =>
-      let i (t : Dec.IntTy) := showRes intShow input (Dec.intAcc t input)
-      match acc with
-      | "bool" => showRes (fun b => if b then "1" else "0") input (Dec.bool input)
-      | "u8" => i .u8 | "u16" => i .u16 | "u32" => i .u32 | "u64" => i .u64
-      | "i8" => i .i8 | "i16" => i .i16 | "i32" => i .i32 | "i64" => i .i64 | "int" => i .int
-      | "f16" => showRes (padHex 8) input (Dec.f16 input)
-      | "f32" => showRes (padHex 8) input (Dec.f32 true input)
-      | "f64" => showRes (padHex 16) input (Dec.f64 true input)
-      | "f32_nohalf" => showRes (padHex 8) input (Dec.f32 false input)
-      | "f64_nohalf" => showRes (padHex 16) input (Dec.f64 false input)
-      | "char" => showRes toString input (Dec.char input)
-      | "bytes" => showRes hexOrDash input (Dec.bytes input)
-      | "str" => showRes hexOrDash input (Dec.str input)
-      | "bytes_iter" => showRes showChunks input (Dec.bytesIter input)
-      | "str_iter" => showRes showChunks input (Dec.strIter input)
-      | "array" => showRes showOpt input (Dec.array input)
-      | "map" => showRes showOpt input (Dec.map input)
-      | "tag" => showRes toString input (Dec.tag input)
-      | "null" => showRes (fun _ => "()") input (Dec.null input)
-      | "undefined" => showRes (fun _ => "()") input (Dec.undefined input)
-      | "simple" => showRes toString input (Dec.simple input)
-      | "datatype" => showRes CType.name input (Dec.datatype input)
-      | "skip" => showRes (fun _ => "()") input (Dec.skip true input)
-      | "skip_noalloc" => showRes (fun _ => "()") input (Dec.skip false input)
-      | _ => "bad-op"
+      match runAcc acc input with
+      | some r => showRes id input r
+      | none => "bad-op"
+  | _ => "bad-op"
+
+/-- `seq <hex> <call> …`: calls on one decoder.  The model works on the remaining input; the
+    driver keeps the position: a position beyond the end behaves like the empty remaining input
+    and does not move (every call answers end-of-input there). -/
+def seqOp (w : List String) : String :=
+  match w with
+  | h :: calls =>
+    match bytesOfHex h with
+    | none => "bad-op"
+    | some input =>
+      let len := input.length
+      let step (st : Nat × List String × Bool) (c : String) : Nat × List String × Bool :=
+        let (pos, out, bad) := st
+        if bad then st else
+        let rem := input.drop pos
+        let newPos (r : Bytes) : Nat := if pos ≤ len then len - r.length else pos
+        if c.startsWith "setpos:" then
+          match (c.drop 7).toString.toNat? with
+          | some n => (n, out ++ [s!"pos {n}"], false)
+          | none => (pos, out, true)
+        else if c.startsWith "probe:" then
+          match runAcc (c.drop 6).toString rem with
+          | some (.ok v r) => (pos, out ++ [s!"ok {v} {newPos r} {pos}"], false)
+          | some (.err e r) => (pos, out ++ [s!"err {e.name} {newPos r} {pos}"], false)
+          | some .panic => (pos, out ++ ["panic"], false)
+          | none => (pos, out, true)
+        else
+          match runAcc c rem with
+          | some (.ok v r) => (newPos r, out ++ [s!"ok {v} {newPos r}"], false)
+          | some (.err e r) => (newPos r, out ++ [s!"err {e.name} {newPos r}"], false)
+          | some .panic => (pos, out ++ ["panic"], false)
+          | none => (pos, out, true)
+      let (_, out, bad) := calls.foldl step (0, [], false)
+      if bad then "bad-op" else ";".intercalate out
+  | _ => "bad-op"
+
+/-- `intconv to:<T> <v>` / `intconv from:<T> <v>` (see harness/core/src/intconv.rs). -/
+def intconvOp (w : List String) : String :=
+  match w with
+  | [dt, a] =>
+    match dt.splitOn ":", a.toInt? with
+    | [dir, t], some v =>
+      let showO (o : Option Int) : String := match o with | some x => s!"ok {x}" | none => "err"
+      let nat (o : Option Nat) : Option Int := o.map (fun (n : Nat) => (n : Int))
+      if dir == "to" then
+        match CInt.ofI128 v with
+        | none => "norep"
+        | some c =>
+          match t with
+          | "u8" => showO (nat (c.toUnsigned 255)) | "u16" => showO (nat (c.toUnsigned 65535))
+          | "u32" => showO (nat (c.toUnsigned 4294967295)) | "u64" => showO (nat c.toU64) | "u128" => showO (nat c.toU128)
+          | "i8" => showO (c.toSigned (-128) 127) | "i16" => showO (c.toSigned (-32768) 32767)
+          | "i32" => showO (c.toSigned (-2147483648) 2147483647) | "i64" => showO c.toI64
+          | "i128" => s!"ok {c.toI128}"
+          | _ => "bad-op"
+      else if dir == "from" then
+        let rng (lo hi : Int) (f : Int → Option CInt) : String :=
+          if lo ≤ v && v ≤ hi then (match f v with | some c => s!"ok {c.toI128}" | none => "err") else "bad-op"
+        match t with
+        | "u8" => rng 0 255 (fun x => some (CInt.ofU64 x.toNat)) | "u16" => rng 0 65535 (fun x => some (CInt.ofU64 x.toNat))
+        | "u32" => rng 0 4294967295 (fun x => some (CInt.ofU64 x.toNat))
+        | "u64" => rng 0 18446744073709551615 (fun x => some (CInt.ofU64 x.toNat))
+        | "i8" => rng (-128) 127 (fun x => some (CInt.ofI64 x)) | "i16" => rng (-32768) 32767 (fun x => some (CInt.ofI64 x))
+        | "i32" => rng (-2147483648) 2147483647 (fun x => some (CInt.ofI64 x))
+        | "i64" => rng (-9223372036854775808) 9223372036854775807 (fun x => some (CInt.ofI64 x))
+        | "u128" => rng 0 340282366920938463463374607431768211455 (fun x => CInt.ofU128 x.toNat)
+        | "i128" => rng (-170141183460469231731687303715884105728) 170141183460469231731687303715884105727 CInt.ofI128
+        | _ => "bad-op"
+      else "bad-op"
+    | _, _ => "bad-op"
   | _ => "bad-op"
 
 end Minicbor.Drv
